@@ -1,4 +1,5 @@
 import Failsafe.Conc.Timeout
+import Failsafe.Exec
 /-!
 # C07 — the timeout outcome is exclusive and consistent, and never early
 
@@ -60,5 +61,62 @@ example : (reach false).any (fun s => s.main == .done && s.ret == .inner) = true
 example : (reach false).any (fun s => s.main == .done && s.ret == .exceeded && s.listener == 1) = true := by decide
 example : (reach false).any (fun s => s.timer == .fired && s.main == .returned) = true := by decide
 example : (reach false).length = 26 := by decide
+
+/-! ## The Timeout layer inside a composition (`Exec.applyPolicy … .timeout`)
+
+The interleaving model above is one application of a Timeout. In the composition model every application opens its own cancel
+scope; these theorems are about an arbitrary inner layer, so they cover every placement of the Timeout. -/
+section Composition
+open Failsafe Failsafe.Exec
+
+/-- the cancel scope of a Timeout is local to one application: whatever happened inside (also when it fired), afterwards the
+enclosing scope's cancellation state and last outcome are what they were. With a retry policy around the Timeout the next
+attempt therefore starts uncancelled: **the limit applies afresh to each attempt**. -/
+
+theorem timeout_scope_local (fuel pos : Nat) (inner : Layer) (r r' : Run) (res : PR)
+    (h : applyPolicy fuel pos .timeout inner r = some (res, r')) :
+    r'.cancelled = r.cancelled ∧ r'.inTimeout = r.inTimeout ∧ r'.timeoutPos = r.timeoutPos ∧ r'.last = r.last := by
+  simp only [applyPolicy] at h
+  split at h
+  · cases h
+  · rename_i res0 r0 _
+    split at h
+    · cases h; exact ⟨rfl, rfl, rfl, rfl⟩
+    · (repeat' (split at h)) <;> (cases h; exact ⟨rfl, rfl, rfl, rfl⟩)
+
+/-- **exclusive outcomes in the composition**: the application returns the timeout result exactly when its own scope was
+cancelled, and otherwise the inner result's value and error unchanged -/
+theorem timeout_outcome_cases (fuel pos : Nat) (inner : Layer) (r r' : Run) (res : PR)
+    (h : applyPolicy fuel pos .timeout inner r = some (res, r')) :
+    ∃ res0 r0, inner { r with inTimeout := true, cancelled := false, timeoutPos := pos } = some (res0, r0) ∧
+      ((r0.cancelled = true ∧ res = timeoutResult.withFailure) ∨
+       (r0.cancelled = false ∧ res.val = res0.val ∧ res.err = res0.err)) := by
+  simp only [applyPolicy] at h
+  split at h
+  · cases h
+  · rename_i res0 r0 hin
+    refine ⟨res0, r0, hin, ?_⟩
+    split at h
+    · rename_i hf; cases h; exact Or.inl ⟨hf, rfl⟩
+    · rename_i hf
+      have hf' : r0.cancelled = false := by simpa using hf
+      (repeat' (split at h)) <;> (cases h; exact Or.inr ⟨hf', rfl, rfl⟩)
+
+/-- a cancellation from outside that is pending once a Timeout application has returned is reported with its own cause: an
+earlier attempt's `ErrExceeded` is never what a later cancellation reports -/
+theorem later_cancellation_reports_its_cause (fuel pos : Nat) (inner : Layer) (r r' : Run) (res : PR) (e : Err)
+    (h : applyPolicy fuel pos .timeout inner r = some (res, r')) (hc : r.cancelled = false) (he : r'.ext = some e) :
+    r'.isCanc = true ∧ r'.cancelRes = failureResult e := by
+  have hl := (timeout_scope_local fuel pos inner r r' res h).1
+  constructor
+  · simp [Run.isCanc, he]
+  · simp [Run.cancelRes, hl, hc, he]
+
+/-- non-vacuity: an inner layer whose scope was cancelled (the Timeout fired): the application returns the timeout result and the
+enclosing scope is uncancelled afterwards -/
+example : ∃ res r', applyPolicy 0 3 .timeout (fun r => some (fnResult 7 none, { r with cancelled := true }))
+    { w := {}, script := [] } = some (res, r') ∧ r'.cancelled = false ∧ res = timeoutResult.withFailure := ⟨_, _, rfl, rfl, rfl⟩
+
+end Composition
 
 end Failsafe.Props.C07
